@@ -136,4 +136,12 @@ CHECKS = {
         assumptions=["runtime.GOMAXPROCS(n) inside one process stands for a process started with that setting", "pool state normalised before each compared encode"],
         tests=[dict(name="TestC12", quick=480, thorough=6000)],
     ),
+    "C11": dict(
+        level="exploration",
+        rule="rapid draws call histories (3-14 steps, thorough 3-25) over Encode (lossy/lossless, sizes drawn from three per-history sizes so that equal macroblock counts recur, jittered pixel sizes with the same macroblock count, NRGBA/RGBA/generic sources, assorted options incl. targets), Decode and DecodeConfig/GetFeatures of seed files (intact, truncated, bit-flipped: errors must not poison pools), animation-encoder runs (lossless/lossy/mixed) and animation playback. "
+             "The history runs with the GC disabled (pooled objects survive); every previously returned value and caller-owned input is re-hashed after every later call. Oracle: each call's result equals the result of the same call from a flushed-pool (fresh) state. "
+             "Non-trivial: the verif-tagged Pool hook saw at least one pool hit during the history; distinct = sequence of (previous op -> op) pairs.",
+        assumptions=["runtime.GC() twice empties every sync.Pool, standing for a fresh process", "results are compared through digests (bytes; image type+bounds+samples; error text)"],
+        tests=[dict(name="TestC11", quick=1600, thorough=25000)],
+    ),
 }
